@@ -773,20 +773,25 @@ func (m *Machine) callSSA(caller *frame, callpos token.Pos, fn *ssa.Function, ar
 		return nil
 	}
 	if fn.Parent() == nil {
-		name := fn.String()
-		if fn.Origin() != nil {
-			name = fn.Origin().String()
-		}
-		if ext, ok := intrinsics[name]; ok {
-			if debugTrace {
-				fmt.Printf("%*sintrinsic %s\n", fr.depth, "", name)
+		ext, seen := m.intrCache[fn]
+		if !seen {
+			name := fn.String()
+			if fn.Origin() != nil {
+				name = fn.Origin().String()
 			}
+			ext = intrinsics[name]
+			if m.intrCache == nil {
+				m.intrCache = map[*ssa.Function]intrinsic{}
+			}
+			m.intrCache[fn] = ext
+		}
+		if ext != nil {
 			res := ext(m, fr, args)
 			m.curFrame = caller
 			return res
 		}
 		if fn.Blocks == nil {
-			panic(pathEnd{status: StUnsupported, msg: "no code for function: " + name})
+			panic(pathEnd{status: StUnsupported, msg: "no code for function: " + fn.String()})
 		}
 	}
 	if fn.TypeParams().Len() > 0 && len(fn.TypeArgs()) == 0 {
@@ -1330,6 +1335,8 @@ func (m *Machine) tryIfConvert(fr *frame, instr *ssa.If, c *Term) bool {
 		}
 	}
 	vals := make([]value, len(phis))
+	m.noFloatLift = true
+	defer func() { m.noFloatLift = false }()
 	for i, phi := range phis {
 		a, b := fr.get(phi.Edges[iT]), fr.get(phi.Edges[iF])
 		r, ok := m.mergeValues(c, a, b)
